@@ -191,7 +191,14 @@ func (r *dynRes) List(ctx context.Context, o metav1.ListOptions) (*unstructured.
 }
 
 func (r *dynRes) Watch(ctx context.Context, o metav1.ListOptions) (watch.Interface, error) {
-	return nil, fmt.Errorf("fakecluster: Watch not supported")
+	req := r.c.begin(&Req{Verb: "watch", Via: "dyn", Key: Key{Group: r.gvr.Group, Resource: r.gvr.Resource, Namespace: r.ns}})
+	defer r.c.end(req)
+	if req.Rejected {
+		req.Result = "error"
+		return nil, r.c.injected("watch")
+	}
+	req.Result = "ok"
+	return r.c.addWatch(ctx, r.gvr.Group, r.gvr.Resource, r.ns), nil
 }
 
 func (r *dynRes) Patch(ctx context.Context, name string, pt types.PatchType, data []byte, o metav1.PatchOptions, sub ...string) (*unstructured.Unstructured, error) {
